@@ -9,7 +9,7 @@ REPO="${VERIF_REPO:-/repo}"
 B="$VERIF/build/$FL"
 mkdir -p "$VERIF/build"
 case "$FL" in
- asan) CXXF="-O1 -g1 -fsanitize=address,undefined -fno-sanitize-recover=undefined -fno-sanitize=nonnull-attribute -fno-omit-frame-pointer" ;;
+ asan) CXXF="-O1 -g1 -fsanitize=address,undefined -fno-sanitize-recover=undefined -fno-sanitize=nonnull-attribute,vptr -fno-omit-frame-pointer" ;;
  tsan) CXXF="-O1 -g1 -fsanitize=thread" ;;
  rel)  CXXF="-O2" ;;
  *) echo "unknown flavour $FL" >&2; exit 2 ;;
